@@ -296,6 +296,16 @@ def op_zst_nested_input(p, r):
     return trait_fault(p, r, bad_ret="ZstBad", what="trait method returning a zero-sized struct")
 
 
+def op_missing_bound_self_ref(p, r):
+    """`&'a Self` on `impl<'b> T<'b>` is `&'a T<'b>`: the bound 'b: 'a it implies has to be spelled out on the method like for the named
+    spelling (seeds C04-h / C05-j: the AST inserts the implied bound for named types only, the validator was the only guard for `Self`)"""
+    mod = p.modules[0]
+    form = r.randrange(3)
+    sig = ["pub fn same_as<'a>(&self, other: &'a Self) -> u8", "pub fn pick<'a>(&self, other: Option<&'a Self>) -> u8", "pub fn me<'a>(other: &'a Self, n: u8) -> &'a Self"][form]
+    mod.extra_src += "    #[diplomat::opaque]\n    pub struct VfLtOp<'b>(pub &'b u8);\n    impl<'b> VfLtOp<'b> {\n        %s { unimplemented!() }\n    }\n" % sig
+    return "VfLtOp", ["same_as", "pick", "me"][form], "&'a Self on a lifetime-carrying opaque without the implied bound 'b: 'a"
+
+
 def op_elided_lifetime_return(p, r):
     op = first(p, "opaque")
     if not op:
@@ -469,7 +479,7 @@ OPERATORS = [op_trait_ref_struct_arg, op_trait_opaque_by_value_arg, op_trait_res
              op_outstruct_param, op_outstruct_param_with_twin, op_outstruct_self, op_ref_struct_param, op_ref_struct_self, op_box_struct_return, op_ref_prim_param,
              op_result_param, op_result_nested_return, op_result_field, op_std_option_prim_field, op_std_option_enum_field,
              op_std_option_struct_field, op_diplomat_option_ref, op_option_box_param, op_option_opaque_value, op_write_not_last,
-             op_write_by_value_return, op_zst_struct_arg, op_zst_nested_input, op_zst_return, op_elided_lifetime_return, op_missing_opaque_def_bound,
+             op_write_by_value_return, op_missing_bound_self_ref, op_zst_struct_arg, op_zst_nested_input, op_zst_return, op_elided_lifetime_return, op_missing_opaque_def_bound,
              op_missing_struct_bound, op_ordering_param, op_unit_param, op_owned_slice_return, op_strs_return, op_callback_return]
 
 # features a backend's profile does not support: the same module is valid elsewhere and must be rejected here
